@@ -89,7 +89,15 @@ static var mkval(var T, int64_t k) {
   if (T is Float) return new(Float, $F((double)k / 8.0));
   if (T is String) { char b[64]; word(k, b); return new(String, $S(b)); }
   if (T is Pt) return new(Pt, $I(imod(k, 50)), $I(imod(k * 7, 11)));
+  /* containers as elements of containers: fixed inner shapes */
+  if (T is Array) { var a = new(Array, Int); for (int64_t i = 0; i < imod(k, 4); i++) push(a, $I(k + 2 * i)); return a; }
+  if (T is List) { var l = new(List, String); for (int64_t i = 0; i < imod(k, 3); i++) { char b[64]; word(k + i, b); push(l, $S(b)); } return l; }
+  if (T is Table) { var t = new(Table, String, Int); for (int64_t i = 0; i < imod(k, 3); i++) { char b[64]; word(k + 5 * i, b); set(t, $S(b), $I(k + i)); } return t; }
+  if (T is Tuple) { var t = new(Tuple); for (int64_t i = 0; i < 1 + imod(k, 3); i++) push(t, new(Int, $I(k + i))); return t; }
   return new(Int, $I(k));
+}
+static var ncode(int64_t t) {
+  switch (imod(t, 4)) { case 0: return Array; case 1: return List; case 2: return Table; default: return Tuple; }
 }
 
 /* print a value through Show, addresses scrubbed */
@@ -117,11 +125,11 @@ static bool is_valtype(var t) { return t is Int or t is Float or t is String or 
 
 static int64_t FPARAM = 2;
 static var f_pred(var x) {            /* Filter predicate: c_int(x) % FPARAM == 0 */
-  int64_t v = type_of(x) is Float ? (int64_t)c_float(x) : type_of(x) is String ? (int64_t)len(x) : c_int(x);
+  int64_t v = type_of(x) is Float ? (int64_t)c_float(x) : (type_of(x) is Int or type_of(x) is Pt) ? c_int(x) : (int64_t)len(x);
   return imod(v, FPARAM) == 0 ? x : NULL;
 }
 static var f_map(var x) {             /* Map function: a fresh Int */
-  int64_t v = type_of(x) is Float ? (int64_t)(c_float(x) * 8.0) : type_of(x) is String ? (int64_t)len(x) : c_int(x);
+  int64_t v = type_of(x) is Float ? (int64_t)(c_float(x) * 8.0) : (type_of(x) is Int or type_of(x) is Pt) ? c_int(x) : (int64_t)len(x);
   return new(Int, $I(v * 3 + 1));
 }
 static var f_sum(var args) {          /* called with a tuple: sum of c_int */
@@ -205,6 +213,22 @@ static void op_new(struct W* w, const char* op) {
     }
     case 'R': { var x = REG(1); if (x and type_of(x) isnt Ref) *r = new(Ref, x); else { P("-"); return; } break; }
     case 'g': { *r = new(Range, $I(imod(A(1), 7)), $I(imod(A(1), 7) + imod(A(2), 9)), $I(1 + imod(A(3), 3))); break; }
+    case 'n': {       /* containers whose elements / values are containers (embedded, allocation class Data) */
+      var V = ncode(A(2));
+      var c;
+      switch (imod(A(1), 4)) {
+        case 0: c = new(Array, V); break;
+        case 1: c = new(List, V); break;
+        case 2: c = new(Table, String, V); break;
+        default: c = new(Tree, Int, V); break;
+      }
+      int64_t n = imod(A(3), 6);
+      for (int64_t i = 0; i < n; i++) {
+        if (is_seq(c)) push(c, mkval(V, A(4) + i));
+        else set(c, mkval(key_type(c), A(4) + 3 * i), mkval(V, A(4) + i));
+      }
+      *r = c; break;
+    }
     default: P("?"); return;
   }
   P("ok");
@@ -419,9 +443,151 @@ static void op_exec(struct W* w, const char* op) {
     P("depth=%d", (int)len(current(Exception)));
     return;
   }
+  if (strcmp(op, "sk") == 0) {        /* objects that are not on the heap: stack (alloc_stack) and static (types, exception objects) */
+    char b[64]; word(A(1), b);
+    switch (imod(A(0), 6)) {
+      case 0: {       /* stack Tuple: everything that does not reallocate is in contract */
+        var t = tuple($I(A(1)), $I(A(2)), $I(A(1) - A(2)), $I(7));
+        P("tuple@stack:%zu,%" PRId64 ",", len(t), c_int(get(t, $I(-1))));
+        set(t, $I(imod(A(2), 4)), $I(99)); set(t, $I(-4), $I(-5));
+        sort(t);
+        P("%d%d,", (int)mem(t, $I(99)), (int)mem(t, $I(123456)));
+        foreach (i in t) { P("%" PRId64 " ", c_int(i)); }
+        for (var i = iter_last(t); i isnt Terminal; i = iter_prev(t, i)) { P("%" PRId64 " ", c_int(i)); }
+        P(",%" PRIu64, hash(t)); P(","); pv(t);
+        break;
+      }
+      case 1: {       /* stack String: readers, and as the source of assign / concat into heap Strings */
+        var s1 = $S(b); var h1 = new(String, $S("h"));
+        P("string@stack:%zu,%d%d,%d,%" PRIu64 ",%s,", len(s1), (int)mem(s1, $S("e")), (int)mem(s1, $S(b)), cmp(s1, $S("fox")) > 0, hash(s1), c_str(s1));
+        assign(h1, s1); concat(h1, s1); append(h1, $S("!")); pv(h1); pv(s1);
+        break;
+      }
+      case 2: {       /* stack Int / Float: assign and swap do not reallocate */
+        var i1 = $I(A(1)), i2 = $I(A(2)); var f1 = $F((double)A(1) / 4.0);
+        assign(i1, i2); swap(i1, $I(5)); assign(f1, $F(2.5));
+        P("num@stack:%" PRId64 ",%" PRId64 ",%f,%d,%" PRIu64, c_int(i1), c_int(i2), c_float(f1), cmp(i1, i2), hash(i2));
+        break;
+      }
+      case 3: {       /* stack Ref and stack File (the documented `$(File, NULL)` + sopen form) */
+        var target = new(Int, $I(A(1)));
+        var r1 = $R(target); P("ref@stack:"); pv(deref(r1)); ref(r1, $I(3)); P(","); pv(deref(r1));
+        const char* dir = getenv("H_TMPDIR");
+        if (dir) {
+          static int scount = 0;
+          char path[600]; snprintf(path, sizeof path, "%s/sk_%d_%d.tmp", dir, (int)getpid(), scount++);
+          var f = $(File, NULL);
+          sopen(f, $S(path), $S("w")); print_to(f, 0, "%s %i", $S(b), $I(imod(A(2), 1000))); sclose(f);
+          sopen(f, $S(path), $S("r")); var sv = new(String); resize(sv, 64); var iv = new(Int);
+          scan_from(f, 0, "%s %i", sv, iv); sclose(f); remove(path);
+          P(",file@stack:%s,%" PRId64, c_str(sv), c_int(iv));
+        }
+        break;
+      }
+      case 4: {       /* static objects: built-in types, the user type, exception objects */
+        var TS[] = { Int, String, Array, Table, Pt, ErrA, KeyError, Type };
+        var t1 = TS[imod(A(1), 8)], t2 = TS[imod(A(2), 8)];
+        P("type@static:%s,%d,%d,%" PRIu64 ",", c_str(t1), cmp(t1, t2) < 0 ? -1 : cmp(t1, t2) > 0, (int)eq(t1, t2), hash(t1));
+        pv(t1); P(",%zu,%s,%d%d", size(t1), c_str(type_of(t1)), (int)type_implements(t1, Len), (int)implements(t1, Cmp));
+        break;
+      }
+      default: {      /* static exception object thrown and compared */
+        var got = NULL;
+        try { throw(ErrB, "x"); } catch (e in ErrA, ErrB) { got = e; }
+        P("exc@static:%d%d,%s", (int)(got is ErrB), (int)eq(got, ErrB), uexn(got));
+        break;
+      }
+    }
+    return;
+  }
+
   /* everything below works on register A(0) */
   if (x is NULL) { P("-"); return; }
 
+  if (strcmp(op, "el") == 0) {
+    /* an operation applied IN PLACE to an element that lives inside a container (allocation class Data: element
+       of an Array / List, value of a Table / Tree) or is held by a heap Tuple (class Heap).  The element pointer
+       is fetched, used once and forgotten (the container may move its elements). */
+    var e = NULL; const char* cls = "data";
+    if (not (is_seq(x) or is_map(x) or T is Tuple)) { P("-"); return; }
+    int64_t n = (int64_t)len(x);
+    if (n == 0) { P("-"); return; }
+    if (is_seq(x)) e = get(x, $I(imod(A(1), 2 * n) - n));
+    else if (T is Tuple) { e = get(x, $I(imod(A(1), n))); cls = "heap"; }
+    else if (is_map(x)) {
+      int64_t j = imod(A(1), n), c = 0; var k = NULL;
+      foreach (kk in x) { if (c++ == j) { k = kk; break; } }
+      e = get(x, k);
+    } else { P("-"); return; }
+    var ET = type_of(e);
+    int64_t sub = A(2);
+    char b[64]; word(A(3), b);
+    /* one level deeper: an element of an element (a String inside a List inside an Array, …) */
+    if (imod(sub, 3) == 2 and (ET is Array or ET is List) and len(e) > 0 and iter_type(e) is String) {
+      e = get(e, $I(imod(A(4), (int64_t)len(e)))); ET = String; cls = "data.data";
+    }
+    if (ET is String) {
+      switch (imod(sub, 10)) {
+        case 0: assign(e, $S(b)); P("String.assign@%s:", cls); break;
+        case 1: assign(e, new(String, $S(b))); P("String.assign@%s:", cls); break;
+        case 2: concat(e, $S(b)); P("String.concat@%s:", cls); break;
+        case 3: append(e, new(String, $S(b))); P("String.concat@%s:", cls); break;
+        case 4: resize(e, (size_t)imod(A(3), 20)); P("String.resize@%s:", cls); break;
+        case 5: print_to(e, 0, "%i:%s", $I(A(3)), $S(b)); P("String.format@%s:", cls); break;
+        case 6: print_to(e, (int)len(e), "+%i", $I(A(3))); P("String.format@%s:", cls); break;
+        case 7: resize(e, 0); append(e, $S(b)); P("String.resize@%s:", cls); break;
+        case 8: { var o = new(String, $S(b)); swap(e, o); P("String.swap@%s:", cls); break; }
+        default: {      /* look: String_Look clears and rebuilds the String in place */
+          var src = new(String); show_to($S(b), src, 0); look_from(e, src, 0); P("String.look@%s:", cls); break;
+        }
+      }
+      pv(e); return;
+    }
+    if (ET is Int) { assign(e, $I(A(3))); P("Int.assign@%s:", cls); pv(e); return; }
+    if (ET is Float) { assign(e, $F((double)A(3) / 8.0)); P("Float.assign@%s:", cls); pv(e); return; }
+    if (ET is Pt) { assign(e, $(Pt, imod(A(3), 50), 3)); P("Pt.assign@%s:", cls); pv(e); return; }
+    if (ET is Array or ET is List) {
+      var IE = iter_type(e); int64_t m = (int64_t)len(e);
+      const char* tn = ET is Array ? "Array" : "List";
+      switch (imod(sub, 10)) {
+        case 0: case 1: push(e, mkval(IE, A(3))); P("%s.push@%s:", tn, cls); break;
+        case 2: { int64_t i = ET is Array ? imod(A(4), m + 1) : (m == 0 ? 0 : imod(A(4), m)); push_at(e, mkval(IE, A(3)), $I(i)); P("%s.push_at@%s:", tn, cls); break; }
+        case 3: if (m > 0) { pop(e); P("%s.pop@%s:", tn, cls); } else P("-:"); break;
+        case 4: if (m > 0) { pop_at(e, $I(imod(A(4), 2 * m) - m)); P("%s.pop_at@%s:", tn, cls); } else P("-:"); break;
+        case 5: if (m > 0) { set(e, $I(imod(A(4), 2 * m) - m), mkval(IE, A(3))); P("%s.set@%s:", tn, cls); } else P("-:"); break;
+        case 6: resize(e, (size_t)imod(A(4), m + 1)); P("%s.resize@%s:", tn, cls); break;
+        case 7: if (ET is Array) { sort(e); P("Array.sort@%s:", cls); } else { resize(e, 0); P("List.resize@%s:", cls); } break;
+        case 8: { var o = ET is Array ? (var)new(Array, IE) : (var)new(List, IE); push(o, mkval(IE, A(3))); push(o, mkval(IE, A(4))); concat(e, o); P("%s.concat@%s:", tn, cls); break; }
+        default: { var o = ET is Array ? (var)new(Array, IE) : (var)new(List, IE); push(o, mkval(IE, A(3))); assign(e, o); P("%s.assign@%s:", tn, cls); break; }
+      }
+      pv(e); if (m > 0 and len(e) > 0) { P(","); pv(get(e, $I(-1))); }
+      return;
+    }
+    if (ET is Table) {
+      int64_t m = (int64_t)len(e);
+      switch (imod(sub, 4)) {
+        case 0: case 1: set(e, $S(b), $I(A(4))); P("Table.set@%s:", cls); break;
+        case 2: if (m > 0) { var k = NULL; foreach (kk in e) { k = copy(kk); break; } rem(e, k); P("Table.rem@%s:", cls); } else P("-:"); break;
+        default: resize(e, (size_t)(m + imod(A(4), 20))); P("Table.resize@%s:", cls); break;
+      }
+      pv(e); return;
+    }
+    if (ET is Tuple) {            /* a Tuple embedded in a container: it may reallocate its item vector */
+      int64_t m = (int64_t)len(e);
+      switch (imod(sub, 9)) {
+        case 6: { var o = new(Tuple); push(o, new(Int, $I(A(3)))); push(o, new(Int, $I(A(4)))); concat(e, o); P("Tuple.concat@%s:", cls); break; }
+        case 7: if (m > 0) { resize(e, (size_t)imod(A(4), m)); P("Tuple.resize@%s:", cls); } else P("-:"); break;   /* shrinking only */
+        case 8: { var o = new(Tuple); push(o, new(Int, $I(A(3)))); assign(e, o); P("Tuple.assign@%s:", cls); break; }
+        case 0: case 1: push(e, new(Int, $I(A(3)))); P("Tuple.push@%s:", cls); break;
+        case 2: if (m > 0) { pop(e); P("Tuple.pop@%s:", cls); } else P("-:"); break;
+        case 3: if (m > 0) { push_at(e, new(Int, $I(A(3))), $I(imod(A(4), m))); P("Tuple.push_at@%s:", cls); } else P("-:"); break;
+        case 4: if (m > 0) { pop_at(e, $I(imod(A(4), 2 * m) - m)); P("Tuple.pop_at@%s:", cls); } else P("-:"); break;
+        default: if (m > 0) { set(e, $I(imod(A(4), 2 * m) - m), new(Int, $I(A(3)))); P("Tuple.set@%s:", cls); } else P("-:"); break;
+      }
+      pv(e); return;
+    }
+    P("-"); return;
+  }
   if (strcmp(op, "dr") == 0) { REG(0) = NULL; P("ok"); return; }
   if (strcmp(op, "dl") == 0) {
     /* a Ref does not own its target; nothing else may still point at x from another register
@@ -578,7 +744,7 @@ static void op_exec(struct W* w, const char* op) {
     if (strcmp(op, "rs") == 0) {
       /* growing a List appends zero-filled, unconstructed elements: a String among them has no buffer, so
          Lists of String only shrink; growing an Array only reserves slots */
-      size_t m = (T is List and E is String) ? (size_t)imod(A(1), n + 1) : (size_t)imod(A(1), 30);
+      size_t m = (T is List and not (E is Int or E is Float or E is Pt)) ? (size_t)imod(A(1), n + 1) : (size_t)imod(A(1), 30);
       resize(x, m); P("%zu", len(x)); return;
     }
     if (strcmp(op, "cl") == 0) { resize(x, 0); P("ok"); return; }
@@ -671,6 +837,7 @@ static void op_exec(struct W* w, const char* op) {
       if (n == 0) { P("-"); return; }
       int64_t i = imod(A(1), 2 * n) - n; set(x, $I(i), mkval(tcode(A(2)), A(2))); P("ok@%" PRId64, i); return;
     }
+    if (strcmp(op, "rs") == 0) { if (n > 0) { resize(x, (size_t)imod(A(1), n)); P("%zu", len(x)); } else P("-"); return; }   /* shrinking only (O9) */
     if (strcmp(op, "it") == 0) { P("("); foreach (i in x) { pv(i); P(" "); } P(")"); return; }
     if (strcmp(op, "ib") == 0) {
       if (n == 0) { P("()"); return; }
@@ -732,6 +899,12 @@ static void run_workload(char* ops) {
     if (!first) P(" | ");
     first = 0;
     P("%s=", tok);
+    /* operations on a register say which type they met (coverage accounting: operation x type x allocation class) */
+    char pat[8]; snprintf(pat, sizeof pat, " %.4s ", tok);
+    if (strstr(" pu ap pa po pt se rm so rs cl cc as sw cp ge me ln ha it ib sl rv zp en fi ma ty sh de ci cm lk iq el dl dr xb xs xz xr xl ", pat) != NULL
+        and w.na > 0 and w.R[imod(w.a[0], NREG)] isnt NULL) {
+      P("%s~", c_str(type_of(w.R[imod(w.a[0], NREG)])));
+    }
     guarded(&w, tok);
     fflush(OUT);
   }
